@@ -70,6 +70,26 @@ class Prog:
                 out.append(list(op))
         return {"class": self.spec.name, "cfg": public_cfg(self.cfg), "ops": out}
 
+    @classmethod
+    def from_describe(cls, d: dict) -> "Prog":
+        """inverse of `describe()` (also after a JSON round trip): the class is resolved through the registry, the
+        configuration is the public one (all a constructor sees); `flat` is rebuilt by replaying the ops."""
+        from .registry import BY_NAME
+        p = cls(BY_NAME[d["class"]], dict(d["cfg"]))
+        for op in d["ops"]:
+            k = op[0]
+            if k == "u":
+                p.u(op[1], Batch.from_describe(op[2]))
+            elif k == "m":
+                p.m(op[1], list(op[2]))
+            elif k == "o":
+                p.o(op[1])
+            elif k == "r":
+                p.r(op[1])
+            else:
+                p.c(op[1], op[2], how=k)
+        return p
+
     def to_line(self, names=None) -> str:
         names = names or arg_names(self.spec, self.cfg)
         parts = [f"prog {self.spec.model} {enc_cfg(self.cfg)}"]
